@@ -512,7 +512,15 @@ impl Clone for %s {
         txt = self.r13_for_mut(txt)
         txt = self.r17_buffile(txt)
         txt = self.r18_ghost_literals(txt)
+        txt = self.r19_zip_from(txt)
         return txt
+
+    def r19_zip_from(self, txt):
+        # R19: `(START..).zip(ITER)` -> `vshim::zip_from(START, ITER)`: vstd has no contract for Iterator::zip / RangeFrom
+        def rep(m):
+            self.rules.hit('R19')
+            return 'crate::vshim::zip_from(%s, %s)' % (m.group(1), m.group(2).strip())
+        return re.sub(r'\(\s*([A-Za-z_][A-Za-z0-9_]*)\s*\.\.\s*\)\s*\.zip\(([^()]*)\)', rep, txt)
 
     def r17_buffile(self, txt):
         # R17: `BufWriter<File>` is opaque to Verus (generic over an external trait): the stand-in
